@@ -29,7 +29,9 @@ def oracle_inv(ck, b, s, bt, qt, low, highs, named):
     desc = 'DTCWTInverse J=%d low=%s filters=%s' % (len(highs), tuple(low.shape), named)
     replay = {'oracle': 'inv', 'low': arr_json(low), 'highs': [arr_json(h) for h in highs], 'named': named,
               'bt': [arr_json(np.ravel(v)) for v in bt], 'qt': [arr_json(np.ravel(v)) for v in qt]}
-    got = rt.run_impl(rt.Case('Q', 'DTCWTInverse', [2, -1, 1, 0], g + [low] + list(highs)), IMPL)
+    from .. import impl_dtcwt
+    with impl_dtcwt.named(b, s):
+        got = rt.run_impl(rt.Case('Q', 'DTCWTInverse', [2, -1, 1, 0], g + [low] + list(highs)), IMPL)
     if isinstance(got, tuple):
         ck.fail(desc + ': raises %s: %s' % (got[1], got[2]), replay); return 'raise'
     for n in range(low.shape[0]):
